@@ -310,6 +310,105 @@ def year_listing_rule(ctx):
           lambda L: 'leap month %d' % L if L else 'no leap month', fn_site(p, 'LunarYear::get_months'))
 
 
+def length_rule(ctx):
+    """A month record's length is the distance to the next new-moon day, whatever that distance is.
+
+    Real LunarMonth::new evaluated with the new-moon routine replaced by a synthetic sequence of new-moon days whose gaps include
+    28 and 31 (the library's own fitted table has a 28-day lunation): day_count must be exactly the gap, and month k+1 must start
+    where month k ends.  (Clamping or defaulting the length breaks the chain of days.)"""
+    p = ctx.prog
+    ctx.rule('PETE-STUB', 'real LunarMonth::new / next evaluated with the new-moon series stubbed: only guards, positions and stride relations are observed')
+    I2 = ctx.interp(fuel=50000000)
+    t2 = T(I2)
+    gaps = [30, 29, 30, 28, 30, 29, 31, 29, 30, 29, 30, 29, 30, 30, 29, 30]
+    base = -400
+
+    def nm(k):       # k-th synthetic new-moon day (any integer k)
+        q, r = divmod(k, len(gaps))
+        return float(base + q * sum(gaps) + sum(gaps[:r]))
+
+    def shuo(I_, r, a):
+        x = float(a[0])
+        k = int((x - base) // 29.5306)
+        while nm(k + 1) <= x + 14.0:
+            k += 1
+        while nm(k) > x + 14.0:
+            k -= 1
+        return nm(k)
+    I2.overrides['ShouXingUtil::calc_shuo'] = shuo
+    I2.overrides['ShouXingUtil::calc_qi'] = lambda I_, r, a: float(int(a[0]))
+
+    def rec(x):
+        y, m = x
+        v = I2.call('LunarMonth::new', [y, m]).v
+        return (py(t2.m(t2.m(v, 'get_first_julian_day'), 'get_day')) - 2451545.0, py(t2.m(v, 'get_day_count')))
+
+    def chain(y):
+        out = []
+        for m in range(1, 12):
+            f0, c0 = rec((y, m))
+            f1, _ = rec((y, m + 1))
+            out.append((c0 == f1 - f0, f1 - f0 in gaps))
+        return out
+    common = [y for y in range(2001, 2100) if py(t2.m(I2.call('LunarYear::from_year', [y]), 'get_leap_month')) == 0][:3]
+    table(ctx, 'PETE-STUB', 'LunarMonth::new:length=distance', common, chain, lambda y: [(True, True)] * 11,
+          'a month\'s day count is exactly the distance between its new-moon day and the next one (synthetic new moons with 28..31-day gaps): no clamping, no default',
+          str, fn_site(p, 'LunarMonth::new'))
+
+
+def long_jump_rule(ctx, tbl=None):
+    """LunarMonth::next(n) lands exactly n months along the stored table, for |n| from one year to three 19-year cycles (real next / new, series stubbed)"""
+    p = ctx.prog
+    ctx.rule('PETE-STUB', 'real LunarMonth::new / next evaluated with the new-moon series stubbed: only guards, positions and stride relations are observed')
+    I2 = ctx.interp(fuel=100000000)
+    t2 = T(I2)
+    I2.overrides['ShouXingUtil::calc_shuo'] = lambda I_, r, a: float(int(a[0] * 1000.0))
+    I2.overrides['ShouXingUtil::calc_qi'] = lambda I_, r, a: a[0]
+    if tbl is None:
+        try:
+            tbl = leap_table(I2)
+        except (Unanalysable, Bottom) as u:
+            ctx.unanalysable('PETE-STUB', 'LunarMonth::next:long-jumps', str(u))
+            return
+    year_leap = {}
+    for m, ys in tbl.items():
+        for y in ys:
+            year_leap[y] = m
+
+    def months_of(y):
+        L = year_leap.get(y, 0)
+        seq = []
+        for m in range(1, 13):
+            seq.append(m)
+            if m == L:
+                seq.append(-m)
+        return seq
+    JBASE = 1900
+
+    def flat_index(y, m):
+        return sum(13 if yy in year_leap else 12 for yy in range(JBASE, y)) + months_of(y).index(m)
+
+    def unflat(k):
+        y = JBASE
+        while True:
+            c = 13 if y in year_leap else 12
+            if k < c:
+                return (y, months_of(y)[k])
+            k -= c
+            y += 1
+
+    def jump(x):
+        y, m, n = x
+        r = t2.m(I2.call('LunarMonth::from_ym', [y, m]), 'next', n)
+        return (py(t2.m(r, 'get_year')), py(t2.m(r, 'get_month_with_leap')))
+    starts = [(1985, 1), (1985, 12), (2004, 1), (2022, 12), (2023, 2), (2023, -2), (2023, 12), (2033, -11), (2001, 5)]
+    starts = [(y, m) for (y, m) in starts if m in months_of(y)]
+    jdom = [(y, m, n) for (y, m) in starts for n in (12, 13, 14, 24, 25, 26, 37, 50, 100, 135, 234, 235, 236, 470, 705, -12, -13, -14, -25, -26, -37, -100, -234, -235, -236, -470)]
+    table(ctx, 'PETE-STUB', 'LunarMonth::next:long-jumps', jdom, jump, lambda x: unflat(flat_index(x[0], x[1]) + x[2]),
+          'stepping a month by n lands exactly n months along the stored table (12/13-month years), for |n| from one year to three 19-year cycles, from regular and leap months',
+          str, fn_site(p, 'LunarMonth::next'))
+
+
 def run(ctx, pid='C03'):
     ctx.exhaustive = False
     ctx.exhaustive_note = 'table rules are complete over the stored table; the stubbed-constructor rules use one sample year per leap-month position'
@@ -425,6 +524,8 @@ def run(ctx, pid='C03'):
     wy = [y for y in list(sample.values()) + [common] if (y - 1) not in reform_years(p) and y not in reform_years(p)]
     table(ctx, 'PETE-STUB', 'LunarMonth::next:order', wy, walk_year, walk_orc,
           'stepping month by month through three lunar years visits 1..12 with the leap month directly after its twin, positions counting up; stepping back retraces the same months; stepping by 0 is the identity (also on a leap month)', str, fn_site(p, 'LunarMonth::next'))
+
+    long_jump_rule(ctx, tbl)
 
     # stride: with calc_shuo(x) = trunc(1000 x), first(k+1) - first(k) must equal the length computed for month k
     def stride(x):
